@@ -306,12 +306,16 @@ SUBSET_LIMIT = 6
 UNKNOWN_NAMES = [("plain", "x-extra"), ("underscore-prefix", "_vendorHint"), ("_meta", "_meta"),
                  ("dunder-prefix", "__dunder"), ("empty", ""), ("space", "with space"), ("non-ascii", "\u00e9-\u540d")]
 UNKNOWN_VALUES = [("scalar", 7), ("null", None), ("object-with-null", {"k": [1, None], "n": None, "s": "v"})]
+# member names that collide with Python-level names of the model classes (constructor parameter, methods, dunders)
+RESERVED_NAMES = ["self", "cls", "data", "__init__", "model_config", "model_dump"]
 UNKNOWN_DEPTH = 2
 UNKNOWN_LIST_ITEMS = 2
 
 
 def name_kind(k: str) -> str:
-    """Class of a member name, in the vocabulary of UNKNOWN_NAMES."""
+    """Class of a member name, in the vocabulary of UNKNOWN_NAMES / RESERVED_NAMES."""
+    if k in RESERVED_NAMES:
+        return "reserved:" + k
     if k == "_meta":
         return "_meta"
     if k.startswith("__"):
@@ -456,7 +460,10 @@ def wire_objects(cls: type, depth: int = 2, pairs: bool = False) -> List[Tuple[s
                 continue
             for vk, val in UNKNOWN_VALUES:
                 out.append((f"unknown:{kind}={vk}@{at}", with_member(full_w, path, name, val)))
-    for kind, name in UNKNOWN_NAMES:
+        for name in RESERVED_NAMES:
+            if name not in declared_here:
+                out.append((f"unknown:reserved:{name}=scalar@{at}", with_member(full_w, path, name, 7)))
+    for kind, name in UNKNOWN_NAMES + [("reserved:" + n, n) for n in RESERVED_NAMES]:
         if name not in declared:
             out.append((f"unknown:{kind}=scalar@<top>/min", with_member(min_w, (), name, UNKNOWN_VALUES[0][1])))
     # de-duplicate on the object (keep first label)
